@@ -318,3 +318,33 @@ def stored_eq_parsed(ck, F, rule="STORED-EQ-PARSED"):
                       "tree the model evaluates (a reload re-parses something else)" % (qn, b.local_name(kl) or "_%d" % kl, sorted(map(str, d1)), sorted(map(str, d2))),
                       f, l, sample={"fn": qn, "local": b.local_name(kl)})
     ck.note("stored_formula_sites", n)
+
+
+def escape_agree(ck, F, rule="ESCAPE-AGREE"):
+    """The `_xHHHH_` escape is recognised by the same character class on both sides: the predicates the writer uses to
+    decide that a literal `_` starts a look-alike (export::escape::starts_xlsx_escape_pattern) are the predicates the
+    reader uses to decide that `_xHHHH_` is an escape (import::shared_strings::decode_xlsx_escapes and its closures).
+    A narrower class on the writer side lets text through that the reader then decodes."""
+    def preds(root_suffix):
+        out = set()
+        roots = [p for p in F.body_paths() if F.qname_of(p) and (F.qname_of(p).endswith(root_suffix) or ("%s::{closure" % root_suffix) in F.qname_of(p))]
+        for p in roots:
+            b = F.body(p)
+            for bi, t in b.calls():
+                q = b.callee_q(t) or ""
+                last = q.rsplit("::", 1)[-1]
+                c = b.callee(t)
+                is_pred = last.startswith("is_") and ("char" in q or "u8" in q or "num::" in q or "ascii" in last)
+                if c in F.heads and F.heads[c].get("output") == "bool" and F.body(c).nargs == 1:
+                    out.add("local:" + F.qname_of(c).rsplit("::", 1)[-1])
+                elif is_pred:
+                    out.add(last)
+        return out, roots
+    w, wr = preds("export::escape::starts_xlsx_escape_pattern")
+    r, rr = preds("import::shared_strings::decode_xlsx_escapes")
+    ck.ob(rule, "anchors", bool(wr) and bool(rr) and bool(w) and bool(r),
+          "writer / reader of the _xHHHH_ escape not found or they use no character predicate (writer %s, reader %s)" % (sorted(w), sorted(r)))
+    ck.ob(rule, "writer-class == reader-class", w == r,
+          "the xlsx writer recognises an `_xHHHH_` look-alike with %s but the reader decodes escapes with %s: text matching only the "
+          "reader's class is written verbatim and comes back decoded" % (sorted(w), sorted(r)),
+          F.heads[wr[0]]["file"] if wr else "", F.heads[wr[0]]["line"] if wr else 0, sample={"writer": sorted(w), "reader": sorted(r)})
